@@ -1628,6 +1628,9 @@ class Interp:
       else:
         z = z3.Bool(fresh_name('opq_' + op.__name__))
       holder.memo[key] = z
+    # the outcome of this comparison is not determined by the contract's inputs:
+    # such a path cannot be cross-checked against CPython on a concrete model
+    self.path.notes['opaque_decision'] = True
     return SBool(z)
 
   def identical(self, a, b):
@@ -2259,7 +2262,10 @@ def _cm_driver(interp, pyfunc, args, kwargs):
     parent = clo.frame
     frame = Frame(locals_, parent.globals if parent else {}, parent.info if parent else None,
                   False, parent=parent, cls=parent.cls if parent else None, name=clo.name)
-    yield from _run_gen_block(interp, node.body, frame)
+    try:
+      yield from _run_gen_block(interp, node.body, frame)
+    except _Return:
+      pass
     return
   info = frontend.get_funcinfo(pyfunc)
   node = info.node
@@ -2268,7 +2274,11 @@ def _cm_driver(interp, pyfunc, args, kwargs):
                              f.__kwdefaults__ or {}, info.qualname)
   frame = Frame(locals_, f.__globals__, info, False, {}, cls=info.cls,
                 name=info.qualname)
-  yield from _run_gen_block(interp, node.body, frame)
+  try:
+    yield from _run_gen_block(interp, node.body, frame)
+  except _Return:
+    # `return` in a generator body ends the generator
+    pass
 
 
 def _contains_yield(stmts):
